@@ -1,6 +1,8 @@
 import SplinkVerif.Drv.Util
 import SplinkVerif.Model.CCSql
 import SplinkVerif.Model.MultiSql
+import SplinkVerif.Model.GMSql
+import SplinkVerif.Model.GraphMetrics
 import SplinkVerif.Model.CC
 namespace SplinkVerif.Drv
 open Lean SplinkVerif SplinkVerif.Rel
@@ -41,4 +43,29 @@ def handleMultiSql (j : Json) : Except String Json := do
   let res := MultiSql.multi (CCSql.nodeRows n) (CCSql.edgeRows edges) (Val.int one) (CC.fuel n) (thrs.map Val.int)
   pure <| Json.mkObj [("results", Json.arr (res.map fun rows =>
     Json.arr (rows.map fun r => Json.arr (r.map jsonOfVal).toArray).toArray).toArray)]
+
+/-- `{"op":"gm_sql","n":N,"cid":[...],"edges":[[l,r,key],...],"thr":key,"order":[node,...]}`: the regenerated SQL of
+compute_graph_metrics (Generated/GMSql.lean) under `Rel.eval`; bridges from the driver's `naiveBridges`
+(proved to meet `BridgeSpec`). -/
+def handleGMSql (j : Json) : Except String Json := do
+  let n ← getNat j "n"
+  let cids ← (← getArr j "cid").mapM (·.getNat?)
+  let es ← getArr j "edges"
+  let thr ← getInt j "thr"
+  let order ← (← getArr j "order").toList.mapM (·.getNat?)
+  let edges ← es.toList.mapM fun e => do
+    let a ← e.getArr?
+    if a.size < 3 then throw "edge [l,r,key] expected"
+    pure ((← a[0]!.getNat?), (← a[1]!.getNat?), (← a[2]!.getInt?))
+  let predict : List Row := edges.map fun e => [Val.int (e.1 : Int), Val.int (e.2.1 : Int), Val.int e.2.2]
+  let clustered : List Row := (List.range n).map fun (i : Nat) =>
+    [Val.int ((cids.getD i 0 : Nat) : Int), Val.int (i : Int), Val.str "x"]
+  let nodes := GMSql.nodes predict clustered (Val.int thr)
+  let natOf : Val → Nat := fun v => match v with | .int i => i.toNat | _ => 0
+  let finder : List Row → List Nat := fun em =>
+    GraphMetrics.naiveBridges (em.map fun r => (natOf (r.getD 0 .null), natOf (r.getD 1 .null)))
+  let etab := GMSql.edges finder predict (order.map fun (i : Nat) => Val.int (i : Int)) (Val.int thr)
+  let ctab := GMSql.clusters nodes
+  let enc := fun (rows : List Row) => Json.arr (rows.map fun r => Json.arr (r.map jsonOfVal).toArray).toArray
+  pure <| Json.mkObj [("nodes", enc nodes), ("edges", enc etab), ("clusters", enc ctab)]
 end SplinkVerif.Drv
